@@ -8,7 +8,7 @@ mkdir -p $S/repo && rsync -a --exclude _build --exclude .git /repo/ $S/repo/
 ( cd $S/repo && git init -q . 2>/dev/null; git apply --whitespace=nowarn "$patch" 2>&1 || patch -p1 < "$patch" ) || { echo "PATCH FAILED"; rm -rf $S; exit 3; }
 rc=0
 for p in "$@"; do
-  VERIF_REPO=$S/repo VERIF_BUILD=$S/build VERIF_EVIDENCE_DIR=$S/evidence /verif/check $p --tier quick 2>&1 | grep -E "VIOLATION|UNDECIDED|KNOWN|tier=" | sed "s|$S|<scratch>|g"
+  VERIF_REPO=$S/repo VERIF_BUILD=$S/build VERIF_EVIDENCE_DIR=$S/evidence /verif/check $p --tier quick 2>&1 | grep -E "VIOLATION|UNDECIDED|BOUNDED|KNOWN|tier=" | sed "s|$S|<scratch>|g"
   r=${PIPESTATUS[0]}; echo "exit=$r prop=$p"
 done
 rm -rf $S
